@@ -123,6 +123,8 @@ const std::string &Context::getName() const {
 
 void Context::addVariable(Variable *variable) {
     variables.emplace_back(variable);
+    for (ResolverCache *c : cache) c->clear();
+    cache.clear();
 }
 
 Variable *Context::getVariable(const std::string &varName, bool global) {
@@ -176,6 +178,8 @@ Function *Context::getFunction(const std::string &functionName) {
 
 void Context::addArray(std::unique_ptr<Array> &&array) {
     arrays.emplace_back(std::move(array));
+    for (ResolverCache *c : cache) c->clear();
+    cache.clear();
 }
 
 Array *Context::getArray(const std::string &arrayName, bool global) {
